@@ -20,19 +20,19 @@ import (
 // C02: delta encoding and decoding are exact for every basis, target, layout.
 
 type C02File struct {
-	Name      string          `json:"name"`
-	T         string          `json:"t,omitempty"` // small-alphabet target
-	B         string          `json:"b,omitempty"` // small-alphabet basis
-	Target    *fstree.Content `json:"target,omitempty"`
-	Basis     *fstree.Content `json:"basis,omitempty"`
-	NoBasis   bool            `json:"no_basis,omitempty"`
+	Name    string          `json:"name"`
+	T       string          `json:"t,omitempty"` // small-alphabet target
+	B       string          `json:"b,omitempty"` // small-alphabet basis
+	Target  *fstree.Content `json:"target,omitempty"`
+	Basis   *fstree.Content `json:"basis,omitempty"`
+	NoBasis bool            `json:"no_basis,omitempty"`
 	// HugeBasis > 0 (receiver mode): the basis is a sparse file of this many
 	// bytes (2 GiB and more) with random data in its last 256 KiB and around
 	// the 2 GiB and 4 GiB marks; block references go to offsets no 32-bit
 	// product can hold
 	HugeBasis int64 `json:"huge_basis,omitempty"`
-	BlockLen  int             `json:"block_len"`
-	StrongLen int             `json:"strong_len"`
+	BlockLen  int   `json:"block_len"`
+	StrongLen int   `json:"strong_len"`
 }
 
 func (f *C02File) target() []byte {
@@ -110,7 +110,7 @@ func (c02) Generate(seed uint64, tier string, index int) any {
 		sc.Tr = Transport{CapCS: kernel.Unbounded, CapSC: kernel.Unbounded, Chunk: kernel.ChunkMax, Bias: kernel.BiasCanonical}
 		return sc
 	}
-	if g.R.Intn(3) == 0 {
+	if g.R.Intn(3) == 0 || index%800 == 7 {
 		sc.Mode = "receiver"
 		sc.ScriptSeed = g.R.Uint64() >> 1
 		n := 1 + g.R.Intn(4)
@@ -126,11 +126,7 @@ func (c02) Generate(seed uint64, tier string, index int) any {
 			}
 			sc.Files = append(sc.Files, f)
 		}
-		hugeOdds := 300
-		if tier == "thorough" {
-			hugeOdds = 100
-		}
-		if g.R.Intn(hugeOdds) == 0 {
+		if index%800 == 7 {
 			// one sparse basis of 2 GiB or more (the real generator checksums all
 			// of it: a few seconds of CPU, hence rarely)
 			sc.Files = []C02File{{Name: "huge", Basis: g.Content(1), HugeBasis: []int64{1<<31 + 12345, 1<<31 + 1<<30, 1<<32 + 4096, 1<<32 + 1<<29 + 7}[g.R.Intn(4)]}}
@@ -552,7 +548,7 @@ func c02Receiver(t *testing.T, sc *C02Scenario, job *Job, res *Result) {
 						bf, err := os.Open(filepath.Join(lay.Dst, f.Name))
 						if err == nil && h.Count > 4 && h.BlockLen > 0 {
 							defer bf.Close()
-							cands := []int32{h.Count - 1, h.Count - 2, h.Count - 3, int32((int64(1)<<31)/int64(h.BlockLen)) + 1, int32((int64(1)<<31)/int64(h.BlockLen)), int32((int64(1)<<32)/int64(h.BlockLen)) + 1}
+							cands := []int32{h.Count - 1, h.Count - 2, h.Count - 3, int32((int64(1)<<31)/int64(h.BlockLen)) + 1, int32((int64(1) << 31) / int64(h.BlockLen)), int32((int64(1)<<32)/int64(h.BlockLen)) + 1}
 							for k := 0; k < 6; k++ {
 								blk := cands[rng.Intn(len(cands))]
 								if blk < 0 || blk >= h.Count {
